@@ -88,6 +88,94 @@ func honest(codeS, codeR string) *honestRun {
 	return h
 }
 
+// tamper alters one authentication message of an otherwise honest session in flight: a single
+// bit flipped, or the message cut short (the connection then closes, as it would for a peer
+// that stops in the middle).
+type tamper struct {
+	byteLog
+	key  string // "<conn>/<writer>:<stream>" of the message to alter
+	mut  string // flip:<bit> | trunc:<len>
+	seen int
+}
+
+func (t *tamper) BeforeWrite(s *quic.Stream, p []byte) (int, quic.Fault) {
+	t.byteLog.BeforeWrite(s, p)
+	k := fmt.Sprintf("%s:%d", s.Conn().Name, int64(s.StreamID()))
+	if k != t.key {
+		return len(p), quic.NoFault
+	}
+	lo := t.seen
+	t.seen += len(p)
+	var n int
+	switch {
+	case strings.HasPrefix(t.mut, "flip:"):
+		fmt.Sscanf(t.mut, "flip:%d", &n)
+		if n/8 >= lo && n/8 < lo+len(p) {
+			p[n/8-lo] ^= 1 << uint(n%8)
+		}
+	case strings.HasPrefix(t.mut, "trunc:"):
+		fmt.Sscanf(t.mut, "trunc:%d", &n)
+		if n >= lo && n < lo+len(p) {
+			return n - lo, quic.FaultPeerClose
+		}
+	}
+	return len(p), quic.NoFault
+}
+
+// honestTampered: both ends honest, same code, one session - and one message altered in flight.
+func honestTampered(dir, mut string) *honestRun {
+	h := &honestRun{}
+	cl, sv := quic.NewPair("h")
+	key := "h/c:0"
+	if dir == "receiver-to-sender" {
+		key = "h/s:0"
+	}
+	tp := &tamper{key: key, mut: mut}
+	cl.Obs, sv.Obs = tp, tp
+	sc, rc := wrap(cl, sv)
+	var wg vrt.WaitGroup
+	wg.Add(2)
+	vrt.GoNamed("S", "S", func() {
+		defer wg.Done()
+		ctx, cancel := vrt.WithTimeout(context.Background(), 10*time.Second)
+		defer cancel()
+		h.sErr = app.VerifAuthenticate(ctx, sc, code, app.VerifRoleSender)
+	})
+	vrt.GoNamed("R", "R", func() {
+		defer wg.Done()
+		ctx, cancel := vrt.WithTimeout(context.Background(), 10*time.Second)
+		defer cancel()
+		h.rErr = app.VerifAuthenticate(ctx, rc, code, app.VerifRoleReceive)
+	})
+	wg.Wait()
+	sc.Close()
+	rc.Close()
+	return h
+}
+
+func checkTamper(dir, m string) {
+	var h *honestRun
+	x := vrt.Run(cfg(), nil, func() { h = honestTampered(dir, m) })
+	res.Eval()
+	rp := map[string]any{"tamper": dir, "mut": m}
+	if x.Outcome != "ok" {
+		res.Violate("hang", "c08/auth", map[string]any{"position": "in-flight", "outcome": x.Outcome}, fmt.Sprintf("honest session, %s message altered (%s): %s %s", dir, m, x.Outcome, x.Detail), rp)
+		return
+	}
+	victimErr, victim := h.rErr, "receiver"
+	if dir == "receiver-to-sender" {
+		victimErr, victim = h.sErr, "sender"
+	}
+	if victimErr == nil {
+		cls := "flip"
+		if strings.HasPrefix(m, "trunc") {
+			cls = "truncation"
+		}
+		res.Violate("accepted", "c08/auth", map[string]any{"position": "in-flight", "alteration": cls, "victim": victim},
+			fmt.Sprintf("honest session with the same code: the %s message was altered in flight (%s) and the honest %s accepted it", dir, m, victim), rp)
+	}
+}
+
 // Move of the attacker: what it sends where an honest party expects a message.
 type Move struct {
 	Base string `json:"base"` // name of a known message, or "nothing"
@@ -326,6 +414,18 @@ func mutClass(sc Scenario) string {
 	return c(sc.M1.Mut) + "/" + c(sc.M2.Mut)
 }
 
+// muts0: every single-bit flip and every truncation of a 50-byte message.
+func muts0() []string {
+	var out []string
+	for b := 0; b < 400; b++ {
+		out = append(out, fmt.Sprintf("flip:%d", b))
+	}
+	for l := 0; l < 50; l++ {
+		out = append(out, fmt.Sprintf("trunc:%d", l))
+	}
+	return out
+}
+
 func mutations() []string {
 	muts := []string{""}
 	for b := 0; b < app.VerifAuthMsgSize*8; b++ {
@@ -353,11 +453,17 @@ func main() {
 			Violation struct {
 				Replay struct {
 					Scenario Scenario `json:"scenario"`
+					Tamper   string   `json:"tamper"`
+					Mut      string   `json:"mut"`
 				} `json:"replay"`
 			} `json:"violation"`
 		}
 		if err := vlib.ReadJSON(vlib.F.Replay, &art); err != nil {
 			res.InfraError("%v", err)
+			res.Finish()
+		}
+		if art.Violation.Replay.Tamper != "" {
+			checkTamper(art.Violation.Replay.Tamper, art.Violation.Replay.Mut)
 			res.Finish()
 		}
 		sc := art.Violation.Replay.Scenario
@@ -391,6 +497,20 @@ func main() {
 			if !same && (h.sErr == nil || h.rErr == nil) {
 				res.Violate("accepted", "c08/auth", map[string]any{"position": "honest", "same_code": false}, fmt.Sprintf("codes %q vs %q: sender %v receiver %v", cs, cr, h.sErr, h.rErr), nil)
 			}
+		}
+	}
+	// (1b) an honest session whose authentication messages are altered in flight: every single-bit
+	// flip and every truncation of either message must make the side that reads it reject
+	for _, dir := range []string{"sender-to-receiver", "receiver-to-sender"} {
+		for _, m := range muts0() {
+			n++
+			if !vlib.Mine(n) {
+				continue
+			}
+			trans++
+			states++
+			res.Nontrivial("tamper|" + dir + "|" + m)
+			checkTamper(dir, m)
 		}
 	}
 	// (2) attacker scenarios
